@@ -57,8 +57,10 @@ def vnode_impls(pairs):
     """VNode proxy impls: (rust type, key expression over `*self`, cfg attr)"""
     out = []
     for ty, key, cfg in pairs:
+        lo = "binop_open(*self)" if ty == "BinOp" else "other_line_open(*self)"
         out.append(f"""{cfg}impl VNode for {ty} {{
     open spec fn key(&self) -> NodeKey {{ {key} }}
+    open spec fn line_open(&self) -> bool {{ {lo} }}
     #[verifier::external_body] fn start_position(&self) -> (r: Option<Position>) {{ unimplemented!() }}
     #[verifier::external_body] fn end_position(&self) -> (r: Option<Position>) {{ unimplemented!() }}
     #[verifier::external_body] fn leading_trivia_vec(&self) -> (r: Vec<&Token>) {{ unimplemented!() }}
